@@ -15,7 +15,8 @@ Kinds == {"bool", "int", "int32", "int64", "double", "float", "string", "date", 
 Primitive == {"bool", "int", "int32", "int64", "double", "float", "string", "date", "byte", "password", "datetime"}
 Positions == {"component", "property", "items", "addl", "query", "header", "path", "requestBody", "responseBody", "responseHeader",
               "componentParameter", "componentHeader", "componentResponse", "componentRequestBody"}
-RefForms  == {"inline", "ref", "alias"}
+\* alias: a component that is only a $ref, declared before its target (names sort); aliasBack: declared after it
+RefForms  == {"inline", "ref", "alias", "aliasBack"}
 
 Cells == { [kind |-> k, pos |-> p, req |-> r, nullable |-> n, ref |-> f] :
              k \in Kinds, p \in Positions, r \in BOOLEAN, n \in BOOLEAN, f \in RefForms }
@@ -23,7 +24,7 @@ Cells == { [kind |-> k, pos |-> p, req |-> r, nullable |-> n, ref |-> f] :
 \* cells that say the same thing twice are left out
 WFCell(c) == /\ (c.pos \in {"component", "items", "addl", "componentResponse", "componentRequestBody", "requestBody", "responseBody"} => c.req)   \* no requiredness there
              /\ (c.pos = "path" => c.req)
-             /\ (c.pos = "component" => c.ref = "inline" \/ c.ref = "alias")
+             /\ (c.pos = "component" => c.ref \in {"inline", "alias", "aliasBack"})
 
 (* ---------------- known-finding selectors of C01 (predicates on the abstract cell) ---------------- *)
 \* cells of the extra axes have kind "extra", ref = the axis ("name", "text", "config"), pos = the site, shape = the value
